@@ -239,6 +239,57 @@ func c17Kind[K any](res *ev.Result, unit string, k *kinds.Kind[K], seed uint64, 
 		res.Violate(ev.Violation{Prop: "C17", Kind: k.Name, Unit: unit,
 			What: "goroutines accumulate with the number of queries", Expected: fmt.Sprint(goroutines0), Observed: fmt.Sprint(g)})
 	}
+	if ok {
+		// where the key bytes came from must not matter: keys cut out of much larger strings,
+		// or byte slices with a huge spare capacity, must not pin or copy the surroundings
+		mk := func(i int, doc []byte) (K, bool) {
+			tag := fmt.Sprintf("zq%010d", i)
+			copy(doc[4096:], tag)
+			var z K
+			switch any(z).(type) {
+			case string:
+				big := string(doc) // a fresh 1 MiB string per key
+				kk, _ := any(big[4096 : 4096+len(tag)]).(K)
+				return kk, true
+			case []byte:
+				own := append([]byte{}, doc...)             // a fresh 1 MiB array per key
+				kk, _ := any(own[4096 : 4096+len(tag)]).(K) // len 12, cap ~1 MiB
+				return kk, true
+			}
+			return z, false
+		}
+		doc := make([]byte, 1<<20)
+		for i := range doc {
+			doc[i] = 'd'
+		}
+		if _, applies := mk(0, doc); applies && k.Family != "compound" {
+			before := liveHeap()
+			const nk = 40
+			for i := 0; i < nk; i++ {
+				key, _ := mk(i, doc)
+				t.Insert(key, uint64(i))
+			}
+			// collation trees keep a reference to the *last* key argument of any call (one
+			// object, whatever the history): look up a small stand-alone key so that this
+			// bounded retention does not point into one of the large buffers
+			t.Search(keys[0])
+			after := liveHeap()
+			for i := 0; i < nk; i++ {
+				key, _ := mk(i, doc)
+				t.Delete(key)
+			}
+			res.Evaluations += nk
+			res.Count("ops_keys_from_large_buffers", nk)
+			res.Max("max_heap_delta_bytes_keys_from_large_buffers", int64(after)-int64(before))
+			if d := int64(after) - int64(before); d > int64(c17Slack) {
+				ok = false
+				res.Violate(ev.Violation{Prop: "C17", Kind: k.Name, Unit: unit,
+					What:     "memory held for stored keys depends on where their bytes came from (12-byte keys taken from 1 MiB strings / slices with 1 MiB spare capacity), not on the content",
+					Expected: fmt.Sprintf("<= %d bytes for %d keys of 12 bytes", c17Slack, nk),
+					Observed: fmt.Sprintf("%d bytes", d)})
+			}
+		}
+	}
 	if ok && k.Fan != nil {
 		// dense growth then removal: many 256-way nodes are built and retired; what stays
 		// alive afterwards must not depend on that peak
